@@ -39,6 +39,9 @@ CHECKS = {
  'C16': dict(level='model_checking', engine='valmc', technique='exhaustive enumeration of return values x forest positions, legal names, versions, and of <=2-node/3-chain programs with cache-file structural invariants and cache-write faults, executed on the implementation',
    text='Every value of the value set returned at 8 nesting positions of the operation forest and served from the cache type-exactly equal with nothing re-executed; every (directory name, file name) pair of a 17-name legal-name grammar built, rebuilt without re-execution and cleaned; every value as a function version; every enclosing-record-invalidated / nested-record-unchanged forest shape re-executes only the enclosing function; every <=2-node program and 3-chain built three times with reference-model comparison, steady-state logs, structural cache invariants (no duplicate record; cache file untouched until the root function returned) and every cache-write fault (open/write/close) followed by a build that must behave as if the failed one never ran.',
    note='Names longer than 255 bytes and NUL are not legal names; BaseException (KeyboardInterrupt) during the root function is not injected (the library only promises rollback for Exception).', design='4/C16'),
+ 'C05': dict(level='model_checking', engine='seqmc', technique='exhaustive enumeration of histories (program x tree x mutation x rebuild twice) on the implementation with an effectiveness oracle derived from reference-model trace trees',
+   text='For every committed build of the bounded sweep (single-observer functions, sparse level-3 observers, <=2-node skeletons, 3-chains): an unchanged rebuild twice and a rebuild after each single mutation of the alphabet. A call whose previous record was ok without setup failure, whose function versions are equal, whose outputs are untouched and whose from-scratch trace (operations, answers, identities of files read) is identical must not be invoked; outputs of calls that were not re-executed keep inode and mtime; an unchanged rebuild invokes exactly the predicted set (calls that raised or had a setup failure, reached through re-executing callers).',
+   note='One-sided: silent when a trace contains an answer the model masks (get_size of a directory, cache-only directory), reads a file built in the same build, or a recorded failed output is displaced by a foreign file. The evidence reports how many calls the oracle actually forbade.', design='4/C05'),
 }
 NOT_YET = {}
 props = [json.loads(l)['id'] for l in open(V + '/properties.jsonl')]
